@@ -28,7 +28,8 @@ CHECKS = {
         text='TLC enumerates every run (3 statuses x 3 output modes x pre-execution endings x every failing executor '
              'step and outcome x cleanup fault x ATC exit codes) and checks the documented table as invariants; every '
              'run is rendered as test-case text, executed in process (and a sample as subprocess of the default '
-             'program) and exit code, stdout and stderr token sequences are compared with the specification.',
+             'program) and exit code, stdout and stderr token sequences are compared with the specification.'
+             ' Every outcome class of the model is also produced by REAL instructions and actors (table REAL), the Preprocess stage by a failing, a missing, a non-executable and a working preprocessor.',
         note='Faults real instructions cannot produce are scripted through a stub instruction/actor added to the '
              'default instruction set with public constructors; message wording is not compared.',
         design='5/C02'),
@@ -50,7 +51,8 @@ CHECKS = {
         text='TLC enumerates every way of ending x cleanup fault x 3 modes x {cd, env, file in tmp/} and checks layout, '
              'result/ contents, tmp/ untouched, removal/keeping and process-state restoration as invariants; every case '
              'is executed and the snapshots taken by stubs inside the real sandbox, the fate of the sandbox directory and '
-             'cwd/os.environ afterwards are compared; read-only sandbox contents are exercised as uid 65534.',
+             'cwd/os.environ afterwards are compared; read-only sandbox contents are exercised as uid 65534.'
+             ' What a case may leave in its sandbox (LeftRows: read-only / no-access entries, symbolic links) is run by unprivileged workers; a kept sandbox is compared entry by entry (kind, permission bits, link target); the action may remove the directory the test stands in (fRm).',
         note='Contents of internal/ are not compared; permission faults need workers that drop privileges (root ignores '
              'permission bits); D8 was found by this check and repaired (fix: 09e13fb).',
         design='5/C04'),
@@ -89,7 +91,8 @@ CHECKS = {
              'permitted line breaks), LeftToRight and LenientExtendsStrict, and exports the denotation of every token '
              'string up to the bound, well-formed or not; each is executed as integer, file, text, files and line matcher '
              '(also in simple contexts and inside parentheses) and must give PASS / FAIL / SYNTAX_ERROR as denoted; the '
-             'order and laziness of evaluation is compared with the model\'s evaluation log.',
+             'order and laziness of evaluation is compared with the model\'s evaluation log.'
+             ' Quantifier prefixes (`every/any line/file :`) and `-transformed-by T` are prefixes whose operand is a SIMPLE expression (QuantifierIsPrefixOperator; QSem one / ctx), replayed in five further hosts; quoted reserved words in place of operators are malformed.',
         note='Bounded string length / tree size; a line break before an infix operator is treated as unspecified '
              '(joined value or SYNTAX_ERROR accepted); transformer composition is checked under C05.',
         design='5/C06'),
@@ -115,7 +118,8 @@ CHECKS = {
              'the matchers is-empty, equals, matches [-full], num-lines, every/any line, -transformed-by, !, &&, || are '
              'recursive TLA+ operators; TLC checks algebraic laws in every state and exports, per text, the output of '
              '~400 transformers and the verdict of ~150 matchers; each text is one real test case holding all of them, '
-             'from a file, from the action\'s stdout and from a string literal.',
+             'from a file, from the action\'s stdout and from a string literal.'
+             ' The regex model has lazy quantifiers; `equals` is also checked against files written with one time stamp; outputs of the strip family are also read line by line.',
         note='Bounded text length (4-5 over {a,b,blank,NL}, 7-10 over {a,NL}); regex family only (atoms, quantifiers, '
              'anchors, -ignore-case; no groups); characters beyond \\n that splitlines breaks on belong to C14.',
         design='5/C05'),
@@ -129,7 +133,8 @@ CHECKS = {
              'reference x FILE-NAME shapes (nested, string-symbol references, absolute) x chains up to MaxDepth x a '
              'context cd, and checks ResolvesUnderRoot, RelCdAtUse, WriteRolesNeverReachHome, acceptance sets and that '
              'rejection happens before execution; every program is executed with --keep and snapshots of all roots, the '
-             'path a probe receives and the verdict are compared with the prediction.',
+             'path a probe receives and the verdict are compared with the prediction.'
+             ' A mention of the symbol before the use (restrictions are per reference), `copy SRC RELATIVITY` (the root directory itself); deviations AbsoluteSuffixWins (D4) and ValidatedOncePerSymbol must be refuted by TLC in every run.',
         note='Bounded chain depth (2 quick / 3 thorough, 6 in simulation); for read-only arguments only the resolution of '
              'what is accepted is claimed; D4 (absolute FILE-NAME escapes its root) is an open known finding judged by '
              'Paths.tla with Deviations={"AbsoluteSuffixWins"}.',
@@ -157,7 +162,8 @@ CHECKS = {
              'enumerates 14 texts (FF, U+2028, CR LF, no final new-line, larger than the default buffer) x file / program '
              'output x 7 value-preserving transformer chains x buffer sizes around the text length x every sequence of '
              'observers reading as lines, as string, as file and through stdin, and checks that both cache '
-             'representations are exercised; each case must PASS, and a control with one wrong observer must FAIL.',
+             'representations are exercised; each case must PASS, and a control with one wrong observer must FAIL.'
+             ' Observers tail / head (two passes over the lines) and notfirst (comparison with a text held in memory), texts with a second line longer than any look-ahead.',
         note='The specification is trivial by design (the property is a refinement claim); observer sequences up to 2 '
              '(quick) / 3 (thorough); D5 (splitlines) was found and repaired (fix: cfee5d8); texts with CR are the open '
              'known finding D5-CRLF (input signature).',
@@ -170,7 +176,8 @@ CHECKS = {
              'child behaviour (short, long, ignores SIGTERM) x five histories of timeout instructions x env in [setup], '
              'and checks KilledWhenOver, NotKilledWhenUnder, StepIsHardError, CleanupStillRuns, BoundedReturn, removal of '
              'the sandbox and Returns (liveness under fairness); each case is executed for real and verdict, failing '
-             'phase, cleanup marker, sandbox, liveness of the started process and time bounds are compared.',
+             'phase, cleanup marker, sandbox, liveness of the started process and time bounds are compared.'
+             ' Every place x use x history is also judged by the limit the process is GIVEN when it starts (hook proc), independent of wall-clock time; the point of use of a program that feeds stdin is where the process starts.',
         note='Wall-clock bounds are generous (limit + 5 s) and timing-only verdicts must be confirmed by a second run; the '
              'quick tier runs a selection (every place with a must-be-killed child), the thorough tier all 870 cases; '
              'grandchildren of shells are outside the property.',
@@ -199,7 +206,8 @@ CHECKS = {
              'over 19 instruction skeletons x classes of INTEGER / REGEX / replacement / range / typed-symbol fillers, '
              'random two-instruction derivations with up to two token mutations from TLC -simulate, and thousands of '
              'mutated corpus files; each must end with a documented outcome allowed for its class, never INTERNAL_ERROR, an '
-             'escaping exception or no termination.',
+             'escaping exception or no termination.'
+             ' An exhaustive family puts one unbalanced quote before every token of every skeleton and of three kinds of [act] line; fillers hostile to message formatting (braces, per cent).',
         note='Only classes the model can classify from the text are held to {SYNTAX_ERROR, VALIDATION_ERROR, HARD_ERROR}; '
              'D7 was found and repaired (three fix: commits); D9 (astronomically large integers) and D10 (unbounded eval) '
              'are open known findings with input signatures.',
@@ -257,7 +265,8 @@ CHECKS = {
              '4 096 (thorough) distributions of suite and case contents over the phases incl. actor, status and '
              'preprocessor in [conf], and 20 kinds of suite-supplied instructions whose value depends on the running '
              'case\'s sandbox; each is run via suite, --suite, beside exactly.suite and plain, and identifiers, ordered '
-             'probe records, sandbox ownership of every value and os.environ / cwd afterwards are compared.',
+             'probe records, sandbox ownership of every value and os.environ / cwd afterwards are compared.'
+             ' Ill-formed values (vbad) are validated from the case\'s own definitions; the multi-case suites have a preprocessor; --suite runs have a decoy exactly.suite beside the case; 12 named deviations must each be refuted by TLC.',
         note='Bounded history length; eight named deviations must each be refuted by TLC in every run; a short process after '
              '`timeout = 0` is a race and is never generated.',
         design='5/C17'),
